@@ -10,7 +10,7 @@ import (
 
 func init() { register("C05", "exploration", checkC05) }
 
-var c05Members = []string{"a", "b", "c", "d", "e", "f", "", "m\r\n"}
+var c05Members = []string{"a", "b", "c", "d", "e", "f", "", "m\r\n", "m\xc3\xa9", "\xff", "\xfe"}
 
 func c05Gen(rng *rand.Rand, m *model.Model, keys []string) []string {
 	sets := []string{"s0", "s1", "s2", "s3"}
